@@ -309,6 +309,7 @@ pub struct PathInfo {
     pub guards_failed: u32,
     pub early_exits: u32,
     pub try_none: u32,
+    pub try_some: u32,
     pub copies_mutated: u32,
     pub field_writes: u32,
     pub list_mutations: u32,
@@ -802,7 +803,10 @@ impl<'a> Interp<'a> {
                 Ok(V::Str(s))
             }
             Expr::Try(a) => match self.expr(a, env)? {
-                V::Enum(n, mut p) if n == "Some" && p.len() == 1 => Ok(p.pop().unwrap()),
+                V::Enum(n, mut p) if n == "Some" && p.len() == 1 => {
+                    self.path.try_some += 1;
+                    Ok(p.pop().unwrap())
+                }
                 V::Enum(n, _) if n == "None" => {
                     self.path.try_none += 1;
                     self.path.early_exits += 1;
